@@ -493,7 +493,7 @@ func descrN(v ssa.Value, depth int) string {
 			}
 			if fa, ok := x.X.(*ssa.FieldAddr); ok {
 				if fv := fieldVar(fa); fv != nil {
-					return descrN(fa.X, depth+1) + "." + fv.Name()
+					return descrN(fa.X, depth+1) + "." + fname(fv)
 				}
 			}
 			return "*" + descrN(x.X, depth+1)
@@ -501,11 +501,11 @@ func descrN(v ssa.Value, depth int) string {
 		return x.Op.String() + descrN(x.X, depth+1)
 	case *ssa.FieldAddr:
 		if fv := fieldVar(x); fv != nil {
-			return "&" + descrN(x.X, depth+1) + "." + fv.Name()
+			return "&" + descrN(x.X, depth+1) + "." + fname(fv)
 		}
 	case *ssa.Field:
 		if fv := fieldVar(x); fv != nil {
-			return descrN(x.X, depth+1) + "." + fv.Name()
+			return descrN(x.X, depth+1) + "." + fname(fv)
 		}
 	case *ssa.BinOp:
 		return "(" + descrN(x.X, depth+1) + " " + x.Op.String() + " " + descrN(x.Y, depth+1) + ")"
